@@ -3,7 +3,7 @@
      sym  ::= K:<index in classes_all>:<cat>:<argcats>     shipped class instance
             | D:<hex64>:<cat> | I:<int>:<cat> | Q:<hexbytes>:<cat>     constants
             | N:<hexname>:<cat>:<argcats>:<parametric 0|1>:<terminal 0|1>   base display
-     gene ::= <symbol index>:<param hex64|->:<row,row,...>
+     gene ::= <symbol index>:<param hex64|->:<row,row,...>[:<own row>]
    output: c:<hex> cpp:<hex> mql:<hex> py:<hex> P:<y|x|n per format>
            (NONE for a format the model does not define) *)
 let split_on c s = String.split_on_char c s
@@ -48,18 +48,23 @@ let () =
                 disp.(i) <- Some (SClass c);
                 mk p.(2) p.(3) (p.(4) = "1")
             | _ -> failwith "sym") descs in
+          let gl = split_on ';' gd in
           let genes = Array.of_list (List.map (fun g ->
             let p = Array.of_list (split_on ':' g) in
             let s = syms.(int_of_string p.(0)) in
             { g_sym = s;
               g_par = (if p.(1) = "-" then F64.of_bits Z0 else F64.of_bits (z_of_hex p.(1)));
-              g_args = cats_of p.(2) }) (split_on ';' gd)) in
-          let n = Array.length genes in
+              g_args = cats_of p.(2) }) gl) in
+          (* optional 4th field: the row of the gene (default: its position) *)
+          let grow = Array.of_list (List.mapi (fun i g ->
+            let p = Array.of_list (split_on ':' g) in
+            if Array.length p >= 4 then int_of_string p.(3) else i) gl) in
+          let n = Array.fold_left (fun m r -> max m (r + 1)) 0 grow in
           let maxcat = Array.fold_left (fun m g -> max m (int_of_nat g.g_sym.s_cat)) 0 genes in
+          let tbl = Hashtbl.create 64 in
+          Array.iteri (fun i ge -> Hashtbl.replace tbl (grow.(i), int_of_nat ge.g_sym.s_cat) ge) genes;
           let g = { rows = nat_of_int n; cats = nat_of_int (maxcat + 1);
-                    cell = (fun r c ->
-                      let r = int_of_nat r and c = int_of_nat c in
-                      if r < n && int_of_nat genes.(r).g_sym.s_cat = c then Some genes.(r) else None);
+                    cell = (fun r c -> Hashtbl.find_opt tbl (int_of_nat r, int_of_nat c));
                     best = { l_index = O; l_cat = O } } in
           let env (op : z) = let i = int_of_z op in if i >= 0 && i < nsym then disp.(i) else None in
           let show f = match language env f g with Some t -> hex_of_bytes t | None -> "NONE" in
